@@ -16,3 +16,7 @@ pub fn sub_expr_counts(v: u8, k0: u8, k1: u8, k2: u8) -> (usize, usize, usize) {
 pub fn primitive_step(s: &str, cur: usize, op: u8, arg: &str) -> (usize, u32, u32, u32, u32, bool, bool) {
     crate::parse::verif::primitive_step(s, cur, op, arg)
 }
+
+pub fn text_locations(src: &str) -> Vec<(u32, u32, u32, u32, String)> {
+    crate::parse::tag::verif::text_locations(src)
+}
